@@ -23,7 +23,7 @@ Fixpoint zip_ranks (shs : list sshell) (rk : list (list nat * nat)) : res (list 
 
 Definition sort_element (e : selement) (rk : option (list (list nat * nat))) : res selement :=
   do shs' <- match eshells e, rk with
-             | Some shs, Some r => do z <- zip_ranks shs r; ok (Some (sort_shells leb_s "" z))
+             | Some shs, Some r => do z <- zip_ranks shs r; ok (Some (sort_shells leb_v "" z))
              | None, _ => ok None
              | Some _, None => fail EDecode
              end;
